@@ -120,20 +120,32 @@ def main():
         line_market = rng.random() < 0.1
         orders = [{"sel": rng.randrange(1, nr + 2), "side": rng.choice(["BACK", "LAY"]), "line": line_market, "client": rng.randrange(ncl),
                    "m": rng.choice([0, 200, 1000, 333, 1234]), "a": (rng.randrange(1, 100) * 5000 if line_market else rng.choice([15000, 20000, 33500, 26400]))} for _ in range(rng.randrange(0, 7))]
+        runners = [{"sel": i + 1, "status": s} for i, s in enumerate(sts)]
+        if mtype == "WIN" and not line_market and rng.random() < 0.3:
+            # handicap market: the same selections listed on several lines, each line settled on its own (an order belongs to ONE (selection, handicap))
+            lines = rng.sample([-2.5, -1.5, -0.5, 0, 0.5, 1.5], rng.randrange(2, 4))
+            runners = [{"sel": sel, "hc": hc, "status": rng.choice(["WINNER", "LOSER", "LOSER", "REMOVED"])} for sel in (1, 2) for hc in lines]
+            rng.shuffle(runners)
+            for d in orders:
+                d["sel"] = rng.choice([1, 2, 2, 3])
+                d["hc"] = rng.choice(lines + [2.5])
         ccases.append({"nclients": ncl, "rates": [rng.choice([0.05, 0.02, 0.0, 0.065]) for _ in range(ncl)], "orders": orders,
-                       "runners": [{"sel": i + 1, "status": s} for i, s in enumerate(sts)], "declared": rng.choice([0, 1, 1, 1, 2, 3]),
+                       "runners": runners, "declared": rng.choice([0, 1, 1, 1, 2, 3]),
                        "mtype": mtype, "div": rng.choice([4.0, 5.0]) if mtype == "EACH_WAY" else 1, "line_result": rng.choice([None, 0, rng.randrange(1, 100) * 5000]) if line_market else None})
     co = run_impl_parallel("c08", [{"job": "closed", "cases": ch} for ch in chunked(ccases, 200)])
     cres = [r for o in co for r in o["out"]]
     prow, crow, drow, meta = [], [], [], []
+    krow = []
+    hc10 = lambda x: z(int(round(x * 10)))
     bad_copy = []
     for ci, (c, r) in enumerate(zip(ccases, cres)):
         wn = sum(1 for x in c["runners"] if x["status"] == "WINNER")
-        st = {x["sel"]: x["status"] for x in c["runners"]}
+        st = {(x["sel"], x.get("hc", 0)): x["status"] for x in c["runners"]}
         for d, po in zip(c["orders"], r["orders"]):
-            exp_res = st.get(d["sel"])
+            exp_res = st.get((d["sel"], d.get("hc", 0)))
             if po["result"] != exp_res or (exp_res is not None and (po["mtype"] != c["mtype"] or po["div"] != c["div"])):
                 bad_copy.append(ci)
+            krow.append("(%s, (%s, %s), %s)" % (cl(["((%s, %s), %s)" % (z(x["sel"]), hc10(x.get("hc", 0)), RES[x["status"]]) for x in c["runners"]]), z(d["sel"]), hc10(d.get("hc", 0)), RES[po["result"]]))
             if exp_res is not None:
                 drow.append("(%s, %s, %s)" % (z(wn), z(c["declared"]), copt(po["dead"])))
             case = {"side": d["side"], "ew": po["mtype"] == "EACH_WAY", "div": po["div"] or 1, "line": d["line"], "lr": po["lr"], "m": d["m"], "a": d["a"], "result": po["result"], "dead": po["dead"]}
@@ -151,9 +163,14 @@ def main():
     pc = [x for ch in ev("c08cp", prow, "profit_cmp") for x in ch]
     cc = [x for ch in ev("c08cc", crow, "cleared_cmp") for x in ch]
     dbad = [i * 1500 + k for i, ch in enumerate(ev("c08cd", drow, "dead_cmp", True)) for k in ch]
+    kbad = [i * 1500 + k for i, ch in enumerate(ev("c08ck", krow, "closed_cmp", True)) for k in ch]
     pm = [i for i, c in enumerate(pc) if c == 2]
     cm = [i for i, c in enumerate(cc) if c == 2]
     ck.family("closed_market_results_copied", len(ccases), len(ccases), sorted(set(bad_copy)), sorted(set(bad_copy)))
+    ck.family("closed_market_settling_runner", len(krow), len(set(krow)), kbad, kbad, exhaustive=False,
+              dist={"orders_on_handicap_lines": sum(1 for c in ccases for d in c["orders"] if "hc" in d), "handicap_markets": sum(1 for c in ccases if any("hc" in x for x in c["runners"]))})
+    for i in kbad[:2]:
+        ck.fail("C08-settling-runner", "process_closed_market gave an order a result other than the one of the runner on its (selection, handicap) line (model: Settle.closed_result)", {"row": krow[i]})
     ck.family("closed_market_profit", len(prow), len(set(prow)), pm, pm, ambiguous=sum(1 for c in pc if c == 1))
     ck.family("dead_heat_count", len(drow), len(set(drow)), dbad, dbad, exhaustive=False)
     ck.family("cleared_summary", len(crow), len(set(crow)), cm, cm, ambiguous=sum(1 for c in cc if c == 1),
